@@ -35,7 +35,7 @@ TSTART = 58123.456789012345
 
 
 def REQUIRED(tier):
-    return [f"api:{a}" for a in APIS] + ["tstart_checks", "label_checks", "shape_checks", "foff>0", "start>0"]
+    return [f"api:{a}" for a in APIS] + ["tstart_checks", "label_checks", "shape_checks", "foff>0", "start>0", "regime:crosses_utc_midnight"]
 
 
 def cases(tier, seed):
@@ -50,8 +50,15 @@ def cases(tier, seed):
                        "nfiles": int(rng.choice([1, 1, 2])), "pseed": int(seed) * 100003 + k}
 
 
+def _tstart_for(case):
+    """Most files start mid-day; one in four starts a few samples before UTC midnight so that sub-ranges begin on the next day."""
+    if case["pseed"] % 4 == 3:
+        return 58000.0 + 1.0 - (case["N"] // 3) * TSAMP / 86400.0
+    return TSTART
+
+
 def _input(ctx, case):
-    key = (case["chan"], case["nchans"], case["N"], case["nfiles"])
+    key = (case["chan"], case["nchans"], case["N"], case["nfiles"], _tstart_for(case))
     cache = ctx.notes.setdefault("_fc", {})
     if key not in cache:
         if len(cache) > 30:
@@ -62,7 +69,7 @@ def _input(ctx, case):
         d = os.path.join(ctx.tmp, f"i{len(os.listdir(ctx.tmp))}")
         os.makedirs(d)
         split = [N] if case["nfiles"] == 1 else [N // 3, N - N // 3]
-        paths = sigfile.write_split(d, X, 32, split, tsamp=TSAMP, tstart=TSTART, fch1=fch1, foff=foff)
+        paths = sigfile.write_split(d, X, 32, split, tsamp=TSAMP, tstart=_tstart_for(case), fch1=fch1, foff=foff)
         cache[key] = (X, paths, d)
     return cache[key]
 
@@ -71,9 +78,12 @@ def _freq(fch1, foff, c):
     return fch1 + foff * c
 
 
+_cur = {"tstart": TSTART}
+
+
 def _tstart_ref(t0):
     """Exact rational MJD of input sample t0."""
-    return Fraction(TSTART) + Fraction(TSAMP) * t0 / 86400
+    return Fraction(_cur["tstart"]) + Fraction(TSAMP) * t0 / 86400
 
 
 class Check:
@@ -146,6 +156,9 @@ def run_case(case, ctx):
     api = case["api"]
     foff, fch1 = CHANNELISATIONS[case["chan"]]
     X, paths, d = _input(ctx, case)
+    _cur["tstart"] = _tstart_for(case)
+    if _cur["tstart"] != TSTART:
+        ctx.count("regime:crosses_utc_midnight")
     N, nch = case["N"], case["nchans"]
     rng = np.random.default_rng([case["pseed"], 3])
     fil = FilReader(paths if len(paths) > 1 else paths[0])
@@ -266,7 +279,10 @@ def run_case(case, ctx):
             chans = rng.choice(nch, size=2, replace=False)
             case = dict(case, chans=chans.tolist()); ck.case = case
             chans = rng.choice(nch, size=int(rng.integers(2, 5)), replace=False)
-            bs = int(rng.choice([200, 1, 2]))
+            if rng.random() < 0.3:   # an unsorted run of adjacent channels
+                a0 = int(rng.integers(0, nch - 4))
+                chans = np.array([a0, a0 + 2, a0 + 1, a0 + 3])
+            bs = int(rng.choice([200, 1, 2, 4]))
             case = dict(case, chans=chans.tolist(), batch_size=bs); ck.case = case
             names = fil.extract_chans(chans, os.path.join(d, f"oc{case['pseed']}"), batch_size=bs, **kw)
             for name, chn in zip(names, chans):
